@@ -193,7 +193,7 @@ func startServer(bin, dir string, port int, slaveof string) (*child, error) {
 	}
 	logf := filepath.Join(dir, "server.log")
 	args := []string{"--bind", "127.0.0.1", "--port", fmt.Sprint(port), "--data_dir", filepath.Join(dir, "data"),
-		"--log", logf, "--db_fast_key_count", "65536"}
+		"--log", logf, "--db_fast_key_count", "64"} // few fast slots: the keys of concurrent scenarios collide, so slow-path key managers are exercised
 	if slaveof != "" {
 		args = append(args, "--slaveof", slaveof)
 	}
